@@ -1716,6 +1716,10 @@ class Scheduler:
             if job.recording_provenance():
                 self.backend.record_job_start(job)
 
+            # This job consumes no resources. If it was nominated to run from the limits
+            # queue, give the jobs queued behind it a chance, otherwise they may wait forever.
+            self._check_jobs_pending_limits()
+
             return
 
         # Check cache for job.
@@ -1741,6 +1745,9 @@ class Scheduler:
             # There's no work to do, but be sure we consider it started.
             if job.recording_provenance():
                 self.backend.record_job_start(job)
+
+            # Cached jobs consume no resources, see above.
+            self._check_jobs_pending_limits()
 
             # Trigger downstream steps, just like an executor would, upon completing it.
             # One of the roles of `done_job` is to trigger evaluation on `result`, in case it is
